@@ -410,7 +410,7 @@ CLAIM = dict(
          'regenerated from writer.go on every run, which also selects the model variant. A sync-reader model with a fault offset proves that the block served always is the member at its base (the invariant the stale-block defect broke). '
          'Model and implementation are run on the same fault cases under lock-step schedules forced by holding underlying calls until the API call is parked (goroutine census); an oracle judges hangs, leaks, swallowed errors and returned bytes, also for rd>1 and caches.',
     note='Trusted: Coq kernel; the model of Go channels/WaitGroup/scheduler (atomic steps); gen/emit_c09.go (skeleton extraction); the goroutine census of the harness. '
-         'Partial: deadlock freedom and termination of threads after Close are proved, a termination measure for every run is not; reader theorem is block-level (flat positions and EOF-at-true-end by correspondence/oracle only); '
+         'Partial: deadlock freedom and termination of threads after Close are proved, a termination measure for every run is not; the sync reader theorem is at flat byte positions incl. EOF only at the true end (rd=1, no cache); '
          'the async reader and caches are covered by the oracle on the implementation only and have two recorded findings (hang / panic after a fault).',
     technique='Coq proof (invariants over a small-step concurrent model, all schedules) + skeleton regenerated from source + lock-step correspondence + fault-injection oracle',
     design='6/C09')
